@@ -99,6 +99,18 @@ def runOpConvert (op : String) (args : List String) : String :=
       | .ok ls => if ls.isEmpty then "EMPTY" else "|".intercalate (ls.map encS)
       | .error e => encErr e
     | _, _ => bad
+  | "grammar_cli", [srcopts, gramtype, markov, destfmt, lig, src] =>
+    -- `treetools grammar SRC DEST gramtype [--markov ...] --dest-format rcg|pmcfg [--dest-opts lex_in_grammar]` on an export source
+    let gt : Option GramType := match gramtype with
+      | "treebank" => some .treebank | "leftright" => some .leftright | "optimal" => some .optimal | _ => none
+    match decS src, gt, decMarkov markov with
+    | some text, some gt, some mo =>
+      match TT.runGrammarFrom gt mo (readExport (decInOpts srcopts) text) with
+      | .error e => encErr e
+      | .ok (g, l) =>
+        let (a, b) := if destfmt == "pmcfg" then writePmcfg (lig == "t") g l else writeRcg (lig == "t") g l
+        encLines a ++ " # " ++ (match b with | some b => encLines b | none => "none")
+    | _, _, _ => bad
   | "P.C03", [srcfmt, destfmt, srcv4, destv4, src, dest] =>
     match decLines src, decLines dest with
     | some sl, some dl =>
